@@ -14,6 +14,7 @@ package main
 import (
 	"encoding/json"
 	"fmt"
+	"math/big"
 	"math/rand"
 	"os"
 	"strconv"
@@ -542,14 +543,21 @@ func main() {
 		}
 		return a
 	}
-	examined := 0
-	report := func(c tcase, g, m string, kind string) {
-		if examined >= 50 {
-			res.Count("disagreements_not_examined", 1)
-			return
+	// report records one disagreement.  spec is the specification's answer when it was already obtained in a
+	// batch ("" = ask now).  Disagreements whose verdict is "violates" (or crashes) are never crowded out by
+	// harmless ones: each class has its own cap of 50.
+	nViol, nHold, asked := 0, 0, 0
+	report := func(c tcase, g, m string, kind string, spec string) {
+		if spec == "" {
+			if _, d := specReq(c, g); d == "" {
+				if asked >= 2000 {
+					res.Count("disagreements_not_examined", 1)
+					return
+				}
+				asked++
+			}
 		}
-		examined++
-		v, what := verdict(c, g, ask)
+		v, what := verdictFrom(c, g, spec, ask)
 		if kind == "spec" {
 			what = "Go agrees with the model but not with the specification: " + what
 		} else {
@@ -557,6 +565,19 @@ func main() {
 		}
 		if g == "panic" {
 			kind = "crash"
+		}
+		if v == "violates" || kind == "crash" {
+			if nViol >= 50 {
+				res.Count("violating_disagreements_not_recorded", 1)
+				return
+			}
+			nViol++
+		} else {
+			if nHold >= 50 {
+				res.Count("harmless_disagreements_not_recorded", 1)
+				return
+			}
+			nHold++
 		}
 		res.AddDisagreement(lib.Disagreement{Kind: kind, Input: c, Go: g, Model: m, SpecVerdict: v, What: c.Op + ": " + what, Replay: c})
 	}
@@ -654,14 +675,14 @@ func main() {
 				return s
 			}
 			if gl != ml {
-				report(cl, unp(gl), unp(ml), "correspondence")
+				report(cl, unp(gl), unp(ml), "correspondence", sl)
 			} else if inDom && gl != sl {
-				report(cl, unp(gl), unp(ml), "spec")
+				report(cl, unp(gl), unp(ml), "spec", sl)
 			}
 			if ge != me {
-				report(ce, unp(ge), unp(me), "correspondence")
+				report(ce, unp(ge), unp(me), "correspondence", se)
 			} else if inDom && ge != se {
-				report(ce, unp(ge), unp(me), "spec")
+				report(ce, unp(ge), unp(me), "spec", se)
 			}
 		}
 	}
@@ -766,6 +787,72 @@ func main() {
 			addLit("1"+sp+"2", 2)
 		}
 	}
+	// 3f. scaled-mantissa boundaries: for every precision f and every number w < f of written fraction digits,
+	// mantissas m with m*10^(f-w) just below / at / just above 2^63, 2^64, 2^64+2^62, 2*2^64, 3*2^64 and 10^19
+	// (a product computed in uint64 wraps there), with and without sign; plus seeded random m whose scaled
+	// value is >= 2^64 but whose residue mod 2^64 is <= 2^63-1 (a wrapped value that passes a range check).
+	// All of them are literals of the claimed form, so the specification verdict is decisive.
+	scaledCount := int64(0)
+	{
+		two64 := new(big.Int).Lsh(big.NewInt(1), 64)
+		two63 := new(big.Int).Lsh(big.NewInt(1), 63)
+		two62 := new(big.Int).Lsh(big.NewInt(1), 62)
+		ten19, _ := new(big.Int).SetString("10000000000000000000", 10)
+		bounds := []*big.Int{two63, two64, new(big.Int).Add(two64, two62), new(big.Int).Mul(big.NewInt(2), two64),
+			new(big.Int).Mul(big.NewInt(3), two64), ten19}
+		lit := func(m *big.Int, w int) string {
+			d := m.String()
+			if w == 0 {
+				return d
+			}
+			for len(d) < w+1 {
+				d = "0" + d
+			}
+			return d[:len(d)-w] + "." + d[len(d)-w:]
+		}
+		add := func(m *big.Int, f, w int) {
+			if m.Sign() < 1 {
+				return
+			}
+			for _, sg := range []string{"", "-"} {
+				cases = append(cases, tcase{"parsedec", []string{lib.HexS(sg + lit(m, w)), strconv.Itoa(f)}})
+				scaledCount++
+			}
+		}
+		for fd := 1; fd <= 18; fd++ {
+			for w := 0; w < fd; w++ {
+				p := new(big.Int).Exp(big.NewInt(10), big.NewInt(int64(fd-w)), nil)
+				for _, b := range bounds {
+					q, rem := new(big.Int).QuoRem(b, p, new(big.Int))
+					if rem.Sign() != 0 {
+						q.Add(q, big.NewInt(1))
+					}
+					for _, dlt := range []int64{-1, 0, 1} {
+						add(new(big.Int).Add(q, big.NewInt(dlt)), fd, w)
+					}
+				}
+			}
+		}
+		nWrap := 400
+		if f.Thorough() {
+			nWrap = 20000
+		}
+		for got := 0; got < nWrap; {
+			fd := 1 + r.Intn(18)
+			w := r.Intn(fd)
+			p := new(big.Int).Exp(big.NewInt(10), big.NewInt(int64(fd-w)), nil)
+			// target between 2^64 and 6*2^64
+			t := new(big.Int).Mul(two64, big.NewInt(int64(1+r.Intn(5))))
+			t.Add(t, new(big.Int).SetUint64(r.Uint64()>>1))
+			m := new(big.Int).Quo(t, p)
+			sc := new(big.Int).Mul(m, p)
+			if sc.Cmp(two64) < 0 || new(big.Int).Mod(sc, two64).Cmp(two63) >= 0 {
+				continue
+			}
+			add(m, fd, w)
+			got++
+		}
+	}
 	// 3e. seeded random literals
 	nLit := 150000
 	if f.Thorough() {
@@ -836,11 +923,11 @@ func main() {
 			okParses++
 		}
 		if ans[i] != goOut[i] {
-			report(c, goOut[i], ans[i], "correspondence")
+			report(c, goOut[i], ans[i], "correspondence", specOf[i])
 			continue
 		}
 		if decided[i] == "violates" {
-			report(c, goOut[i], ans[i], "spec")
+			report(c, goOut[i], ans[i], "spec", specOf[i])
 			continue
 		}
 		if s, ok := specOf[i]; ok {
@@ -849,7 +936,7 @@ func main() {
 				specNA++
 			}
 			if !judge(c, goOut[i], s, ask) {
-				report(c, goOut[i], ans[i], "spec")
+				report(c, goOut[i], ans[i], "spec", specOf[i])
 			}
 		}
 		if i%(len(cases)/6+1) == 0 {
@@ -863,7 +950,7 @@ func main() {
 		"Pairs: complete square of the boundary grid (%d magnitudes x 2 signs x fd 0..18 = %d numbers, %d ordered pairs) + %d seeded random numbers each against 8 "+
 		"rescaled near-equal partners, 7 random ones and itself + numbers with fd 19..255 (panic behaviour). Unary String/Int/Trunc/print-parse on all of these numbers; "+
 		"FromInt/FromUint on boundary and random integers; literals: complete enumeration of strings of length <= %d over %q (ParseInt, ParseDecimal at 1 and 3), "+
-		"64-bit boundary mantissas with the dot at every position at every precision 0..19, 0..300 written fraction digits, all Unicode white-space encodings and look-alikes around literals, "+
+		"64-bit boundary mantissas with the dot at every position at every precision 0..19, for every precision f in 1..18 and every w < f written fraction digits the mantissas m with m*10^(f-w) at/around 2^63, 2^64, 2^64+2^62, 2*2^64, 3*2^64, 10^19 (with and without sign) and seeded random m whose scaled value exceeds 2^64 with a residue mod 2^64 below 2^63, 0..300 written fraction digits, all Unicode white-space encodings and look-alikes around literals, "+
 		"%d seeded random structured literals (decimal, base-0, underscores, junk); fraction-digits arguments through YANG text and Process. "+
 		"Every Go answer is compared with the compiled model and, inside the property's domain, with the exact-arithmetic specification.",
 		len(mags), len(grid), gridPairs, nRand, maxLen, alpha, nLit)
@@ -872,6 +959,7 @@ func main() {
 	res.Distribution["pairs_total"] = pairs
 	res.Distribution["random_numbers"] = nRand
 	res.Distribution["enumerated_short_strings"] = enumCount
+	res.Distribution["scaled_mantissa_boundary_literals"] = scaledCount
 	res.Distribution["cases_by_op"] = opCount
 	res.Distribution["spec_evaluated_unary"] = specChecked
 	res.Distribution["spec_not_applicable_literals"] = specNA
@@ -881,8 +969,9 @@ func main() {
 	res.Write(f.Out)
 }
 
-// verdict evaluates the specification on the Go answer of one case.
-func verdict(c tcase, g string, ask func(string) string) (string, string) {
+// verdictFrom evaluates the specification on the Go answer of one case; spec is the specification's
+// answer if already known, "" to ask the driver now.
+func verdictFrom(c tcase, g, spec string, ask func(string) string) (string, string) {
 	q, d := specReq(c, g)
 	if d != "" {
 		if d == "violates" {
@@ -890,11 +979,18 @@ func verdict(c tcase, g string, ask func(string) string) (string, string) {
 		}
 		return d, "outside the domain of the property (model fidelity only)"
 	}
-	s := ask(q)
+	s := spec
+	if s == "" {
+		s = ask(q)
+	}
 	if judge(c, g, s, ask) {
 		return "holds", "specification (" + q + ") says " + s + ", which the Go answer " + g + " satisfies"
 	}
 	return "violates", "specification (" + q + ") says " + s + ", Go says " + g
+}
+
+func verdict(c tcase, g string, ask func(string) string) (string, string) {
+	return verdictFrom(c, g, "", ask)
 }
 
 func replay(f *lib.Flags) {
